@@ -65,19 +65,20 @@ Theorem peak_batch_independent : forall fmin fmax f es d i,
 Proof. exact peak_batch_nth. Qed.
 
 (* the solver: leaving the loop through the tolerance test means that every point of the batch
-   has had the same number (1..10) of Newton steps from its own first guess and satisfies
-   |omega(k, depth) - w| < 1e-3 w *)
+   has had the same number (1..10) of Newton steps from its own first guess, is a number
+   (None = NaN) and satisfies |omega(k, depth) - w| < 1e-3 w; omega = Some _ says the radicand
+   g k tanh(k d) is not negative *)
 Theorem kinv_converged : forall ps ks,
   kinv ps = Converged ks ->
   (exists m, (1 <= m <= 10)%nat /\ ks = map (fun p => iter m (newton1 p) (first_guess p)) ps) /\
   length ks = length ps /\
   forall i w dep, (i < length ps)%nat -> nth i ps (0, Deep) = (w, dep) -> 0 < w ->
-    Rabs (omega (nth i ks 0) dep - w) < 1 / 1000 * w.
+    exists k om, nth i ks None = Some k /\ omega k dep = Some om /\ Rabs (om - w) < 1 / 1000 * w.
 Proof. exact kinv_converged. Qed.
 
 Theorem kinv_exit_tolerance : forall ps ks i w dep,
   kinv ps = Converged ks -> (i < length ps)%nat -> nth i ps (0, Deep) = (w, dep) -> 0 < w ->
-  Rabs (omega (nth i ks 0) dep - w) < 1 / 1000 * w.
+  exists k om, nth i ks None = Some k /\ omega k dep = Some om /\ Rabs (om - w) < 1 / 1000 * w.
 Proof. exact kinv_exit_tolerance. Qed.
 
 (* peak wavenumber: dispersion relation at the radian peak frequency (default band) for the
@@ -88,13 +89,16 @@ Theorem peak_wavenumber_dispersion : forall f b ks,
   forall i e rd, (i < length b)%nat -> nth i b ([], RawNaN) = (e, rd) ->
     exists kp, peak_index 0 None f e = Some kp /\
       let w := nth kp f 0 * 2 * PI in
-      0 < w -> Rabs (omega (nth i ks 0) (depth_of rd) - w) < 1 / 1000 * w.
+      0 < w ->
+      exists k om, nth i ks None = Some k /\ omega k (depth_of rd) = Some om /\
+                   Rabs (om - w) < 1 / 1000 * w.
 Proof. exact peak_wavenumber_dispersion. Qed.
 
-Theorem nan_depth_is_deep : forall k, omega k (depth_of RawNaN) = sqrt (grav * k).
+Theorem nan_depth_is_deep : forall k, omega k (depth_of RawNaN) = osqrt (grav * k).
 Proof. exact nan_depth_is_deep. Qed.
 
-Theorem deep_first_guess_exact : forall w, 0 < w -> omega (first_guess (w, Deep)) Deep = w.
+Theorem deep_first_guess_exact : forall w, 0 < w ->
+  first_guess (w, Deep) = Some (w * w / grav) /\ omega (w * w / grav) Deep = Some w.
 Proof. exact deep_first_guess_exact. Qed.
 
 (* the direction is reported in (-180, 180] degrees *)
@@ -104,7 +108,7 @@ Proof. exact dir_deg_range. Qed.
 (* unconditional convergence in deep water: the first guess w^2/g is the root, the loop exits
    after one step through the tolerance test *)
 Theorem deep_converges : forall ps, all_deep ps ->
-  kinv ps = Converged (map (fun p => fst p * fst p / grav) ps).
+  kinv ps = Converged (map (fun p => Some (fst p * fst p / grav)) ps).
 Proof. exact deep_converges. Qed.
 
 (* non-vacuity: a plateau (tie between bins 1 and 3), a NaN bin, and the global maximum 9 outside
